@@ -344,6 +344,39 @@ func C12(p *ir.Program, r *report.R) {
 		c.MustFind("K4", "blockchain.(*BlockchainReactor).poolRoutine/VerifyCommit", fn, n, "VerifyCommit call")
 	}
 
+	// (e2) block and part set change together. addProposalBlockPart decodes a completed set INTO
+	// cs.ProposalBlock; a Block object left over from another proposal keeps its cached hash, so the
+	// reassembled bytes would be reported under the old block's identity. Every assignment of
+	// ProposalBlockParts is therefore paired with one of ProposalBlock: an empty set with nil, a block's
+	// own parts with that block.
+	{
+		bf := p.Field("consensus/types", "RoundState.ProposalBlock")
+		pf := p.Field("consensus/types", "RoundState.ProposalBlockParts")
+		n := 0
+		for _, ps := range p.Stores(pf) {
+			if strings.HasSuffix(p.Pos(ps.Fn.Pos()), "_test.go") || ps.Kind != "store" || ir.RelPkg(ps.Fn.Pkg.Pkg) != "consensus" {
+				continue
+			}
+			n++
+			pv := ir.Render(ps.Val)
+			paired, bv := false, ""
+			for _, bs := range p.Stores(bf) {
+				if bs.Kind == "store" && bs.Instr.Block() == ps.Instr.Block() && bs.Instr.Parent() == ps.Instr.Parent() {
+					paired, bv = true, ir.Render(bs.Val)
+				}
+			}
+			okPair := paired
+			if paired && (pv == "nil" || strings.HasPrefix(pv, "types.NewPartSetFromHeader(")) {
+				okPair = bv == "nil"
+			} else if paired {
+				okPair = bv != "nil"
+			}
+			r.Check("K5", "consensus/proposal-block-and-parts-change-together/"+ir.FuncName(ir.EnclosingTop(ps.Fn)), p.InstrPos(ps.Instr), okPair,
+				fmt.Sprintf("ProposalBlockParts = %s is paired with ProposalBlock = %s (an empty part set with nil)", short(pv, 60), short(bv, 60)))
+		}
+		r.Check("K5", "consensus/proposal-block-and-parts-change-together/sites", "-", n >= 6, fmt.Sprintf("%d assignments of ProposalBlockParts (confirmed by hand: 6)", n))
+	}
+
 	// (f) stored parts: a block is served and reloaded from parts stored under (height, index); the key
 	// must determine both, and the key families of the store must not overlap
 	storeKeyRules(c, "blockchain", 7)
@@ -398,6 +431,44 @@ func storeKeyRules(c C, rel string, want int) {
 		r.Check("K11", "store-key/"+ir.FuncName(a.fn)+"/own-prefix", p.Pos(a.fn.Pos()), clash == "", fmt.Sprintf("constant prefix %q is not a prefix of another key family %s", a.prefix, clash))
 	}
 	r.Check("K11", "store-key/"+rel+"/builders", "-", len(builders) >= want, fmt.Sprintf("%d key builders analysed (confirmed by hand: %d)", len(builders), want))
+
+	// every key the package reads, writes or deletes comes from one of those builders (or is one of the
+	// constant singleton keys): an ad-hoc key or prefix — "BP:<height>" without its terminator also
+	// matches heights 10..19, 100..199 — escapes the injectivity argument above
+	nUse := 0
+	for _, f := range p.Funcs {
+		if f.Pkg == nil || ir.RelPkg(f.Pkg.Pkg) != rel || f.Blocks == nil || strings.HasSuffix(p.Pos(f.Pos()), "_test.go") {
+			continue
+		}
+		ir.Instrs(f, func(in ssa.Instruction) {
+			call, ok := in.(ssa.CallInstruction)
+			if !ok {
+				return
+			}
+			n := ir.CalleeName(call)
+			var key string
+			switch {
+			case ir.Match("db.DB.Get", n), ir.Match("db.DB.Load", n), ir.Match("db.DB.Has", n), ir.Match("db.DB.Exist", n), ir.Match("db.DB.Set", n), ir.Match("db.DB.SetSync", n),
+				ir.Match("db.DB.Delete", n), ir.Match("db.DB.DeleteSync", n), ir.Match("db.Batch.Set", n), ir.Match("db.Batch.Delete", n),
+				ir.Match("db.DB.NewIteratorWithPrefix", n), ir.Match("db.DB.Iterator", n), ir.Match("db.DB.ReverseIterator", n):
+				key = Arg(call, 1)
+			default:
+				return
+			}
+			nUse++
+			okKey := regexp.MustCompile(`^`+regexp.QuoteMeta(rel)+`\.cal\w*Key\(`).MatchString(key) || // a builder
+				regexp.MustCompile(`^`+regexp.QuoteMeta(rel)+`\.\w+$`).MatchString(key) || // a package-level constant key
+				key == "nil" // SetSync(nil, nil): the flush idiom
+			if !okKey {
+				// a local that holds a builder's result
+				if v := ir.Render(operandArgs(call)[1]); strings.Contains(v, rel+".cal") {
+					okKey = true
+				}
+			}
+			r.Check("K3", "store-key/"+rel+"/only-built-keys/"+ir.FuncName(ir.EnclosingTop(f)), p.InstrPos(in), okKey, "the key comes from a calc*Key builder or is a singleton key: "+short(key, 100))
+		})
+	}
+	r.Check("K3", "store-key/"+rel+"/key-uses", "-", nUse >= 25, fmt.Sprintf("%d database calls with a key inspected", nUse))
 }
 
 func normBoolRet(row ir.Row) string {
